@@ -11,6 +11,12 @@ use vstd::std_specs::iter::IteratorSpec;
 use std::collections::{HashMap, HashSet};
 verus!{
 //@include common/std_extra.rs
+/// a Vec never holds more than isize::MAX elements (language guarantee vstd does not export; A-VECLEN): lets small arithmetic on
+/// lengths (`len + 2`) verify
+#[verifier::external_body]
+pub broadcast proof fn axiom_vec_len_b<T>(v: Vec<T>)
+    ensures #[trigger] v@.len() <= isize::MAX as nat
+{}
 broadcast use vstd::std_specs::iter::group_iter_axioms;
 // =====================================================================
 // spec functions (the property's vocabulary)
@@ -445,6 +451,8 @@ impl ClusterManager {
                         > voter_ids(self.config.nodes@).len(),                                      //#healthy_needs_strict_majority
         r.has_leader ==> exists|k: u64| self.node_metadata@.contains_key(k)
                         && self.node_metadata@[k].role == NodeRole::Leader,                         //#leader_is_known
+//@atstart
+        broadcast use axiom_vec_len_b;
 //@chain ".filter(" d
 //@chain ".any(" e mut
 //@after "let mut e1 ="
